@@ -24,6 +24,7 @@ mod c07;
 mod c17;
 mod c12;
 mod c04;
+mod gridalg;
 mod flexalg;
 mod blocktree;
 
@@ -57,6 +58,7 @@ fn main() {
         "c17" => c17::main(rest),
         "c12" => c12::main(rest),
         "c04" => c04::main(rest),
+        "gridalg" => gridalg::main(rest),
         "flexalg" => flexalg::main(rest),
         "blocktree" => blocktree::main(rest),
         other => {
